@@ -46,14 +46,44 @@ def _check(hyps, goal, timeout_ms, opts=(), extra=()):
     return r, s
 
 
+_QCACHE = {}
+
+
+def has_quantifier(e):
+    k = e.get_id()
+    r = _QCACHE.get(k)
+    if r is not None:
+        return r[1]
+    found = False
+    stack = [e]
+    seen = set()
+    while stack:
+        x = stack.pop()
+        if x.get_id() in seen:
+            continue
+        seen.add(x.get_id())
+        if z3.is_quantifier(x):
+            found = True
+            break
+        stack.extend(x.children())
+    _QCACHE[k] = (e, found)
+    return found
+
+
 def solve(ob, timeout_ms=10000, use_cvc5=True):
     """returns (status, backend, seconds, model-or-None); status in discharged|refuted|unknown"""
     t0 = time.time()
     g = z3.simplify(ob.goal)
     if z3.is_true(g):
         return "discharged", "simplifier", time.time() - t0, None
-    # 1. all hypotheses, short budget
     extra = _extra(ob)
+    # 0. quantifier-free part of the hypotheses only (sound for 'unsat'; most obligations do not need the
+    #    quantified well-formedness preconditions and the solver is much faster without them)
+    qf = [h for h in ob.hyps if not has_quantifier(h)]
+    if len(qf) != len(ob.hyps) and not has_quantifier(ob.goal):
+        r0, _ = _check(qf, ob.goal, min(2000, timeout_ms), extra=[x for x in extra if not has_quantifier(x)])
+        if r0 == z3.unsat:
+            return "discharged", "z3(qf hyps)", time.time() - t0, None
     r, s = _check(ob.hyps, ob.goal, min(2000, timeout_ms), extra=extra)
     if r == z3.unsat:
         return "discharged", "z3", time.time() - t0, None
